@@ -223,7 +223,9 @@ func ruleP18Format(p *Prog, r *Report) {
 	}
 	for _, ret := range returnsOf(far) {
 		d := describe(far, retResult(ret, 0))
-		r.check(strings.Join(d, "+") == "s.Format()+previousStyle.seqs()" || strings.Join(d, "+") == "s.Format()+"+far.Params[2].Name()+".seqs()", rule, "FormatAndRestore", p.instrPos(ret), "FormatAndRestore(t, p) = Format(t) + p.seqs()", "FormatAndRestore is not Format(t) + previous.seqs(): "+strings.Join(d, "+"))
+		prev := far.Params[2].Name()
+		r.check(strings.Join(d, "+") == "s.Format()+previousStyle.seqs()" || strings.Join(d, "+") == "s.Format()+"+prev+".seqs()" ||
+			strings.Join(d, "+") == "s.seqs()+param:"+far.Params[1].Name()+"+field:reset+"+prev+".seqs()", rule, "FormatAndRestore", p.instrPos(ret), "FormatAndRestore(t, p) = Format(t) + p.seqs()", "FormatAndRestore is not Format(t) + previous.seqs(): "+strings.Join(d, "+"))
 		// Format is applied to the text parameter
 		if c, _ := callOf(func() ssa.Value {
 			var leaves []ssa.Value
